@@ -6,6 +6,7 @@ import Driver.C02
 import Driver.C18
 import Driver.C19
 import Driver.Engine
+import Driver.Client
 /-!
 Line-protocol driver: one request per line on stdin, one answer per line on stdout.
 Only model files are imported (no proofs, no Mathlib), so this links as a native executable.
@@ -30,6 +31,9 @@ def dispatch (line : String) : String :=
     | "menc" => cmdMenc args
     | "route" => cmdRoute args
     | "eng" => cmdEng args
+    | "cli" => cmdCli args
+    | "setup" => cmdSetup args
+    | "ka" => cmdKa args
     | _ => "bad-op"
 
 partial def loop (h : IO.FS.Stream) (out : IO.FS.Stream) : IO Unit := do
